@@ -254,7 +254,7 @@ Proof.
   - etrans; [apply delete_subseteq|]. apply (j_sub _ _ _ _ _ HJ).
   - apply (j_vars _ _ _ _ _ HJ).
   - apply (j_l2v _ _ _ _ _ HJ).
-  - destruct (j_frame _ _ _ _ _ HJ) as (?&?&?&?). by split_and!.
+  - destruct (j_frame _ _ _ _ _ HJ) as (?&?&?&?&?). by split_and!.
   - (* worklist members are zero-count nodes *)
     assert (Hold : ∀ n, n ∈ U ∖ {[u]} →
               n ≠ 1%positive ∧ n ∈ dom (succ (gc_del s u t)) ∧
